@@ -11,6 +11,7 @@ go build ./kit/... ./gen/...
 for d in props/*/; do
   n=$(basename "$d")
   [ -f "$d/main.go" ] || continue
+  [ "$n" = selftest ] && continue
   if head -3 "$d/main.go" | grep -q 'go:build verif'; then
     VERIF_BUILD_ONLY=1 "$d/run.sh" quick >/dev/null 2>&1 || echo "setup: overlay build of $n failed"
   else
@@ -20,4 +21,6 @@ done
 for n in c06 c08 c09; do
   VERIF_BUILD_ONLY=1 engine/run_a.sh $(echo $n | tr a-z A-Z) quick -pkg osmpbf:decode.go,scanner.go,decode_data.go -sub sched >/dev/null 2>&1 || echo "setup: overlay build of $n/sched failed"
 done
+# engine self-test (vsched + vexplore on programs with known defects); reported, never fatal
+tools/selftest.sh > bin/selftest.log 2>&1 && echo "setup: engine self-test passed" || { echo "setup: ENGINE SELF-TEST FAILED (bin/selftest.log)"; tail -5 bin/selftest.log; }
 echo setup done
